@@ -81,7 +81,11 @@ def run_machine(machine_cls_factory, interp_factory, hseed, max_examples, step_c
         run_state_machine_as_test(seed(hseed)(Machine), settings=st)
     except Violation as v:
         ops = col.last_ops
-        return col, {"oracle": v.oracle, "message": v.message, "where": jsonable(v.where), "detail": jsonable(v.detail)}, ops
+        # canonical verdict = what the recorded (minimal) op list does when replayed on a fresh interpreter
+        v2 = replay_ops(interp_factory, ops, workdir) if ops is not None else None
+        if v2 is None:
+            raise RuntimeError(f"operation list recorded for a failing example does not fail on replay: {v.oracle}: {v.message} ops={ops}")
+        return col, v2, ops
     return col, None, None
 
 
@@ -100,3 +104,29 @@ def machine_case_outcome(col, v, ops, case, extra_sample=None):
     if v and ops is not None:
         out["minimal_ops"] = jsonable(ops)
     return out
+
+
+class MachineMixin:
+    """Shared rule plumbing: run an interpreter op, remember whether it failed."""
+
+    failed = False
+
+    def do(self, name, **kw):
+        try:
+            getattr(self.it, "op_" + name)(**kw)
+        except BaseException:
+            self.failed = True
+            raise
+
+    def finish_example(self, col, sample_len=4):
+        col.last_ops = list(self.it.ops)
+        try:
+            if not self.failed:
+                self.it.finish()
+                col.examples += 1
+                col.steps += len(self.it.ops)
+                col.seqs.add(tuple(op for op, _ in self.it.ops))
+                if col.sample is None and len(self.it.ops) >= sample_len:
+                    col.sample = {"ops": self.it.ops[:8]}
+        finally:
+            self.it.close()
